@@ -79,6 +79,19 @@ def solve_contract(self):
     _QP[0] += 1
     k = len(e.zvars)
     vs, cs = self.vs, self.cs
+    # solve() is a deterministic function of the QP: a syntactically identical QP met earlier on this path gets the
+    # same solution variables (so two runs that build the same QP agree without the solver having to re-derive uniqueness)
+    memo = e.__dict__.setdefault("qp_memo", {})
+    idx0 = {id(v): i for i, v in enumerate(vs)}
+    key = (
+        tuple((E.lin_of(v.desiredPosition).key(), E.lin_of(v.weight).key()) for v in vs),
+        tuple((idx0[id(c.left)], idx0[id(c.right)], E.lin_of(c.gap).key()) for c in cs),
+    )
+    if key in memo:
+        for i, v in enumerate(vs):
+            v.block = _FB(memo[key][i])
+            v.offset = 0
+        return 0
     xs = e.free_reals(["qp%d_x%d" % (k, i) for i in range(len(vs))])
     lam = e.free_reals(["qp%d_l%d" % (k, i) for i in range(len(cs))])
     idx = {id(v): i for i, v in enumerate(vs)}
@@ -94,6 +107,7 @@ def solve_contract(self):
         stat[r] = stat[r] - lam[j]
     cons += [st == 0 for st in stat]
     e.assume(And(*cons))
+    memo[key] = xs
     for i, v in enumerate(vs):
         v.block = _FB(xs[i])
         v.offset = 0
@@ -121,6 +135,16 @@ def scenario(cfg, val, fresh_only=False):
     sc.s = val("s", 0, SMAX)
     sc.p = [val("p%d" % i, PLO, PHI) for i in range(n)]
     sc.w = [val("w%d" % i, 0, WMAX, True) for i in range(n)]
+    if cfg.get("tie_split") and E.ENGINE is not None:
+        # decide ties of data positions up front and, on a tie, use ONE proxy for both labels (the statement's
+        # premise: labels sharing a data position share a width) -- identical inputs then build identical terms
+        for j in range(n):
+            for i in range(j):
+                if bool(sc.p[i] == sc.p[j]):
+                    E.ENGINE.assume(sc.w[i] == sc.w[j])
+                    sc.p[j] = sc.p[i]
+                    sc.w[j] = sc.w[i]
+                    break
     sc.nodes = [Node(sc.p[i], sc.w[i], data="d%d" % i) for i in range(n)]
     for i, nd in enumerate(sc.nodes):
         nd.vid = i
